@@ -74,6 +74,9 @@ func main() {
 	if err == nil {
 		err = runRandFor(e)
 	}
+	if err == nil {
+		err = randProjFor(e)
+	}
 	cleanup()
 	if *out != "" {
 		if werr := e.rep.Write(*out); werr != nil {
